@@ -80,6 +80,11 @@ func (m *MatchHTTP) Provision(ctx caddy.Context) error {
 func (m *MatchHTTP) Match(cx *layer4.Connection) (bool, error) {
 	// TODO: do we need a more standardized way to amortize matchers? or at least to remember decoded results from previous matchers?
 	req, ok := cx.GetVar("http_request").(*http.Request)
+	// the remembered request belongs to the connection it was parsed from: a handler that wraps
+	// the connection (tls, proxy_protocol) hands on another stream that shares the variables
+	if ok && cx.GetVar("http_request_conn") != cx {
+		ok = false
+	}
 	if !ok {
 		var err error
 
@@ -131,6 +136,7 @@ func (m *MatchHTTP) Match(cx *layer4.Connection) (bool, error) {
 
 		// remember this for future use
 		cx.SetVar("http_request", req)
+		cx.SetVar("http_request_conn", cx)
 
 		// also add values to the replacer (TODO: we could probably find a way to use the http app's replacer values)
 		repl := cx.Context.Value(layer4.ReplacerCtxKey).(*caddy.Replacer)
